@@ -96,9 +96,12 @@ def transplant(master, mit, regs, kept, ext, eit):
     # insertion points: for each region, the kept-token ordinal that follows it
     inserts = {}  # offset in ext.src -> [texts]
     order = 0
+    outer = [(a, b) for (a, b, kind) in regs if kind != "vis"]
     for (a, b, kind) in regs:
         if kind == "vis":
             continue  # visibility comes with the extracted text
+        if any(oa <= a and b <= ob and (oa, ob) != (a, b) for oa, ob in outer):
+            continue  # nested in another region (an attribute inside a clause): it travels with that region
         # region text, including the comments (labels) that precede it
         left_tok = a - 1
         txt_lo = master.toks[left_tok].end if left_tok >= mit.lo else master.toks[a].start
